@@ -18,9 +18,16 @@ def b64(b):
 
 
 class Project:
-    def __init__(self, scratch_root, tasks, scripts=None, disable_git=True, name="p"):
+    def __init__(self, scratch_root, tasks, scripts=None, disable_git=True, name="p", hostile=None):
+        """hostile: {"odd_root": bool, "condout_symlink": bool} - legitimate but unusual surroundings: a project
+        path with spaces and non-ASCII characters; cond-out placed on other storage behind a symbolic link"""
+        hostile = hostile or {}
         self.scratch = scratch_root
+        plain = name   # helper files (scenario, event log, gates) keep shell-inert names
+        if hostile.get("odd_root"):
+            name = name + " pr\u00f6j (1)"
         self.root = os.path.join(scratch_root, name)
+        name = plain
         self.tasks = tasks
         self.tb = {t["id"]: t for t in tasks}
         self.scripts = scripts or {}
@@ -34,6 +41,10 @@ class Project:
                 needs_site = any(s[0] == "lib" for s in self.scripts.get(t["id"], {}).get("steps", []))
                 t["run"] = "python3 %s%s %s %s" % ("" if needs_site else "-S ", PROBE, self.scn_path, t["id"])
         gen.write_project(self.root, tasks, disable_git=disable_git)
+        if hostile.get("condout_symlink"):
+            real_out = os.path.join(scratch_root, "storage vol", "deeper", name + "-cond-out")
+            os.makedirs(real_out, exist_ok=True)
+            os.symlink(real_out, os.path.join(self.root, "cond-out"))
         self._pos = 0
 
     def write_scn(self):
@@ -74,6 +85,10 @@ class Project:
     def out_dir(self, tid, version=None):
         pkg, name = gen.split_tid(tid)
         return os.path.join(self.root, "cond-out", pkg, name + ".task" + ("" if version is None else ".%s" % version))
+
+
+def hostile_choice(rng, p_root=0.25, p_link=0.2):
+    return {"odd_root": rng.random() < p_root, "condout_symlink": rng.random() < p_link}
 
 
 def read_rows(root):
